@@ -8,6 +8,8 @@ VERIF = os.path.dirname(os.path.dirname(os.path.abspath(__file__)))
 TRUST = "rustc nightly HIR/typeck facts describe what stable builds; the fact exporter and rule engines (fail closed on anything unrecognised; self-validated by seeded mutants and benign variants); std/chrono/serde_json/clap library semantics as listed in the evidence"
 
 CLAIMED = {
+    "C02": dict(cat="other", tech="static analysis: structural queries (deletion-only sinks, reverse application, merge-before-delete, pausing call sites) + abstract-interpretation byte-class tables of the scanners + provenance grammar of formatter range endpoints",
+                text="Decides the deletion discipline that the behaviour rests on, clause by clause (each necessary): only replace_range(_, \"\") touches the cleaned text, applied back to front, after sorted insertion and overlap merging; scanners skip only ' ' and '\\t' when pausing and report only a boundary '\\n' (complete composite tables over byte class x boundary x pause); every formatter range endpoint is the seam, a pausing-scan result or that + 1 on a line break; dedent ranges are clamped by the first non-blank; marker extents are token boundaries and the unwrap pair is guarded. Not the surviving text itself, nor sortedness maintained by merge_ranges.", ref="5 C02"),
     "C03": dict(cat="other", tech="static analysis: decision-table abstract interpretation of collect_removable_ranges + structural queries (strategy selection, registry wiring, marker extents)",
                 text="Complete per-element decision table (2^7 rows) of the collection fold: recursion into children on every path, ready children never dropped, ready push exactly when not skip & registered & verdict & built & non-empty; first-available strategy with a constantly available fallback; evaluator registry wiring; marker extents = tag token boundaries. Decides totality of collection, not the cursor arithmetic of merge_markers.", ref="5 C03"),
     "C04": dict(cat="other", tech="static analysis: decision table (no ready item without a verdict) + control-dependence query on formatter::format + empty-range typestate of the unwrap builder",
@@ -16,6 +18,10 @@ CLAIMED = {
                 text="The whole decision function over {attribute found, value present, parse ok, ordering of current vs expires} (24 rows) is extracted from the source by path-enumerating abstract interpretation and compared with the spec row by row, including the boundary second (equality) and monotonicity in the current time; wiring rules pin the parsed string, format, parser type and compared operands, and connect offset/current time to the configuration and the CLI options. chrono's parser and instant ordering are trusted.", ref="5 C05"),
     "C06": dict(cat="proof", tech="static analysis: exhaustive decision tables (marker evaluator, is_skip, skip/unregistered rows of the collection table) + name-use discipline query + clap-expansion query",
                 text="Finite truth tables of MarkerEvaluator::is_removal and is_skip and the skip/unregistered rows of the collection table are extracted exhaustively; every use of a tag/attribute name or value in the library is classified (exact ==, hash lookup, pass-through; substring/case-folding/trimming operations are violations); the clap Arg feeding the target set has no default.", ref="5 C06"),
+    "C14": dict(cat="other", tech="static analysis: abstract-interpretation byte-class tables of the scanners + constant-argument query on scanner call sites + provenance grammar of formatter range endpoints",
+                text="Locality through its mechanisms: scanners stop at the first non-blank when pausing (complete tables), every seam formatter calls them pausing, every returned endpoint is seam / pausing-scan result (+1), dedent ranges are clamped per line. Decides these clauses, not verbatim survival of every stretch.", ref="5 C02/C14"),
+    "C17": dict(cat="other", tech="static analysis: decision table of the pending/ready gating + loop-shape query on the pending/ready merge",
+                text="Clauses only: complete gating table (pending push exactly when not skip & registered & not verdict & collect_pending & built & non-empty; skip/unregistered/cannot-unwrap in neither list; ready list independent of the flag) and merge exhaustiveness (the pending cursor advances only inside an inner loop, each ready range pushed once unconditionally, pending tail appended). Squash test, once-each and order in general are not decided.", ref="5 C17"),
 }
 
 NA = {
